@@ -627,7 +627,20 @@ def rv_origins(body, rv, bb, x, depth=0, _seen=None):
                         out += inner
             return out
         names = tuple(pr.get("name") or pr.get("variant") for pr in projs)
-        out.append(("field", names, tuple(origins(body, p["local"], depth + 1, _seen))))
+        bo = origins(body, p["local"], depth + 1, _seen)
+        out.append(("field", names, tuple(bo)))
+        # the payload of a value that was built in this very body (`Some(v)` returned by a spliced-in helper, then matched): v itself
+        if len(projs) >= 2 and projs[0]["k"] == "downcast" and projs[1]["k"] == "field" and projs[1].get("idx") is not None:
+            for o in bo:
+                if o[0] == "agg" and o[2] == projs[0]["variant"] and projs[1]["idx"] < len(o[4]["rv"]["ops"]):
+                    op = o[4]["rv"]["ops"][projs[1]["idx"]]
+                    if op["k"] in ("copy", "move") and not [pr for pr in op["place"]["proj"] if pr["k"] != "deref"]:
+                        inner = origins(body, op["place"]["local"], depth + 1, _seen)
+                        rest = projs[2:]
+                        if rest:
+                            out.append(("field", tuple(pr.get("name") or pr.get("variant") for pr in rest), tuple(inner)))
+                        else:
+                            out += inner
     elif rv["k"] == "unop" and rv["op"] == "Not":
         l = operand_local(rv["a"])
         if l is not None and not [pr for pr in rv["a"]["place"]["proj"] if pr["k"] != "deref"]:
